@@ -2,6 +2,7 @@ package fileutils
 
 import (
 	"bufio"
+	"io"
 )
 
 // Readln returns a single line (without the ending \n)
@@ -45,6 +46,11 @@ func ReadUntilSemiColon(r *bufio.Reader) (string, error) {
 				lastChar = ln[i]
 			}
 		}
+	}
+	// The input ends right after a chunk that filled the reader's buffer:
+	// the tree is complete, the end of file is for the next call
+	if err == io.EOF && lastChar == ';' {
+		err = nil
 	}
 	return string(ln), err
 }
